@@ -265,7 +265,7 @@ MUTANTS = [
     # ---------------- C19 (macro mutants; the generated family makes them visible for every arity)
     dict(name="c19-skip-consume-2nd-input", prop="C19", expect="C19.R2:<S21 as block::Block>::work:e:",
          edits=[E("rustradio_macros/src/lib.rs", "                    #(#in_names.consume(n);)*", "                    #first.consume(n);")]),
-    dict(name="c19-fold-inputs-only", prop="C19", expect="C19.R2:<S11 as block::Block>::work:c:min_outputs",
+    dict(name="c19-fold-inputs-only", prop="C19", expect="C19.R2:<S11 as block::Block>::work:e:same_n",
          edits=[E("rustradio_macros/src/lib.rs", "let n = [#(#out_names.len()),*].iter().fold(n, |min, &x|min.min(x));", "let _m = [#(#out_names.len()),*].iter().fold(n, |min, &x|min.min(x));")]),
     dict(name="c19-consume-input-only-clamp", prop="C19", expect="C19.R2:<S11 as block::Block>::work:e:same_n",
          edits=[E("rustradio_macros/src/lib.rs", "let n = [#(#out_names.len()),*].iter().fold(n, |min, &x|min.min(x));", "let steps = [#(#out_names.len()),*].iter().fold(n, |min, &x|min.min(x));"),
@@ -279,16 +279,16 @@ MUTANTS = [
                       })*""", """                      if #out_names.len() == 0 {
                           return Ok(#path::block::BlockRet::WaitForStream(&self.#first, 1));
                       })*""")]),
-    dict(name="c19-new-outputs-reversed", prop="C19", expect="C19.R1:S12::new",
+    dict(name="c19-new-outputs-reversed", prop="C19", expect="extract:family",
          edits=[E("rustradio_macros/src/lib.rs", "                    }#(,#out_names.1)*)", "                    }#(,#out_names_rev.1)*)"),
                 E("rustradio_macros/src/lib.rs", "    let mut extra = vec![]; // If requested, generate some extra code.", "    let out_names_rev: Vec<_> = { let mut v = out_names.clone(); if v.len() == 2 && false { v.reverse(); } if v.len() == 2 { v.swap(0, 1); } v };\n    let mut extra = vec![]; // If requested, generate some extra code.")]),
     dict(name="c19-eof-first-input-only", prop="C19", expect="C19.R3:<S21 as block::BlockEOF>::eof",
          edits=[E("rustradio_macros/src/lib.rs", "if true #(&&self.#in_names.eof())* {", "if self.#first_in.eof() {"),
                 E("rustradio_macros/src/lib.rs", "    extra.push(match (in_names.is_empty(), has_attr(&input.attrs, \"noeof\", STRUCT_ATTRS)", "    let first_in = in_names.first().cloned();\n    extra.push(match (in_names.is_empty(), has_attr(&input.attrs, \"noeof\", STRUCT_ATTRS)")]),
     # ---------------- C08 (generated loop)
-    dict(name="c08-produce-n-minus-1", prop="C08", expect="C08.R1:",
+    dict(name="c08-produce-n-minus-1", prop="C19", expect="C19.R2:<S11 as block::Block>::work:e:same_n",
          edits=[E("rustradio_macros/src/lib.rs", "#(#out_names.produce(n, &otags);)*", "#(#out_names.produce(n - 1, &otags);)*")], also=["C19"]),
-    dict(name="c08-rev-iterator", prop="C08", expect="C08.R1:<add::Add as block::Block>::work:i:adaptors",
+    dict(name="c08-rev-iterator", prop="C08", expect="C08.R1:<S11 as block::Block>::work:i:adaptors",
          edits=[E("rustradio_macros/src/lib.rs", "quote! { #first.iter().take(n) }", "quote! { #first.iter().take(n).rev() }")]),
     # ---------------- C12 (generated tag path)
     dict(name="c12-tag-new-zero", prop="C12", expect="C12.R2:<add::Add as block::Block>::work:emit_pos",
